@@ -81,12 +81,13 @@ LocalName(im) == IF im.alias # "" THEN im.alias ELSE LastSeg(im.path)
 
 \* The quantifier: "any Go source file whose methods have receivers declared in that file"; names are
 \* unambiguous (a file with two declarations of one name is not a Go program) and a receiver variable
-\* does not shadow an import.
+\* neither shadows an import nor is shadowed by a parameter (`func (x T) M(x int)` is not a Go program).
 GoInQuant(f) ==
   /\ \A d \in Range(GoMethods(f)) : d.recv \in GoTypeNames(f)
   /\ Distinct(NamesOf(GoTypes(f)) \o NamesOf(GoFuncs(f)))
   /\ \A t \in GoTypeNames(f) : Distinct(NamesOf(MethodsOn(f, t)))
-  /\ \A d \in Range(GoMethods(f)) : d.rv \notin {LocalName(im) : im \in Range(f.imports)}
+  /\ \A d \in Range(GoMethods(f)) : /\ d.rv \notin {LocalName(im) : im \in Range(f.imports)}
+                                     /\ (d.rv = "" \/ d.rv \notin Range(NamesOf(FlatFields(d.params))))
 
 \* ---- calls: "each package-qualified or receiver call written as a statement, under its own name, exactly once"
 Quals(f) == {LocalName(im) : im \in Range(f.imports)}
@@ -228,16 +229,20 @@ PyOptUsage(s) == (IF s.k = "import" /\ s.names[1].as # "" THEN {s.names[1].as} E
                  (IF s.k = "from" /\ s.names = <<>> THEN {"*"} ELSE {})
 AllowedU(n) == {n.name} \cup (IF n.as # "" THEN {n.as} ELSE {})
 Glued(n) == n.name \o "as" \o n.as
-\* known defect shape: a `name as alias` item whose text the front-end lists glued together ("barasb");
-\* the tag is computed per item: only the aliased name that is missing and the glued text that stands in for it
+\* known defect shape (cannot be repaired: the repository's golden file import_stmt.json pins it): an item
+\* `name as alias` of a `from m import ...` statement is listed as the glued text "namealias" with "as" in between
+\* ("barasb"). The tag is computed per item: only the aliased name that is missing and the glued text standing in for it.
 PyUsageDiff(s, oi, w) ==
   LET req == PyReqNames(s)
-      gluedNames == {Glued(req[j]) : j \in {x \in DOMAIN req : req[x].as # ""}}
-  IN  {Item("py-import-name-missing", w \o " " \o req[j].name,
-            IF req[j].as # "" /\ Glued(req[j]) \in Range(oi.usage) THEN {"py.import.alias-glued"} ELSE {}) :
+      \* a statement that binds one name twice (`import a as m, b as m`) is not judged name by name
+      unamb == \A i, j \in DOMAIN req : i # j => AllowedU(req[i]) \cap (AllowedU(req[j]) \cup PyOptUsage(s)) = {}
+      gluedNames == IF s.k = "from" THEN {Glued(req[j]) : j \in {x \in DOMAIN req : req[x].as # ""}} ELSE {}
+  IN  IF ~unamb THEN {} ELSE
+      {Item("py-import-name-missing", w \o " " \o req[j].name,
+            IF s.k = "from" /\ req[j].as # "" /\ Glued(req[j]) \in Range(oi.usage) THEN {"py.from-import.alias-glued"} ELSE {}) :
          j \in {x \in DOMAIN req : Count(oi.usage, LAMBDA u : u \in AllowedU(req[x])) # 1}} \cup
       {Item("py-import-name-unwritten", w \o " " \o u,
-            IF u \in gluedNames /\ Occ(oi.usage, u) = 1 THEN {"py.import.alias-glued"} ELSE {}) :
+            IF u \in gluedNames /\ Occ(oi.usage, u) = 1 THEN {"py.from-import.alias-glued"} ELSE {}) :
          u \in {x \in Range(oi.usage) : /\ \A j \in DOMAIN req : x \notin AllowedU(req[j])
                                         /\ \/ x \notin PyOptUsage(s)
                                            \/ Occ(oi.usage, x) > 1}}
@@ -259,9 +264,12 @@ PyImportDiff(f, o, w) ==
                       THEN {}
                       ELSE UNION {PyUsageDiff(sx[a], ox[a], w \o x) : a \in DOMAIN sx} : x \in srcs}
 
+\* The listing is promised "for any Python module": a module that is Python (valid by construction of the
+\* renderer) but on which the shipped lexer/parser reports syntax errors is still judged. Only the crash
+\* clause is limited to "a file its parser accepts".
 DiffPyFile(f, o, w) ==
-  IF ~o.accepts \/ ~PyInQuant(f) THEN {}
-  ELSE IF o.panic THEN {Item("panic", w, {})}
+  IF ~PyInQuant(f) THEN {}
+  ELSE IF o.panic THEN (IF o.accepts THEN {Item("panic", w, {})} ELSE {})
   ELSE EntriesDiff(PyClasses(f), o.types, "py-class-missing", "py-class-duplicated", "py-class-undeclared", w,
                    LAMBDA c, e : PyClassDiff(c, e, w, PyNested(f))) \cup
        ListingDiff(NamesOf(o.funcs), NamesOf(PyFuncs(f)), PyNested(f), "py-func-missing", "py-func-extra", w) \cup
@@ -287,12 +295,11 @@ DiffCommon(in, obs) ==
       tnames == Range(NamesOf(allTypes))
       typeEntries == SelectSeq(oc.ds, LAMBDA e : e.name \in tnames)
       otherEntries == SelectSeq(oc.ds, LAMBDA e : e.name \notin tnames)
-      inq == /\ oc.accepts
-             /\ \A i \in DOMAIN fs : InQuant(in.lang, fs[i]) /\ obs.files[i].accepts
+      inq == /\ \A i \in DOMAIN fs : InQuant(in.lang, fs[i]) /\ (in.lang = "go" => obs.files[i].accepts)
              /\ Distinct(NamesOf(allTypes) \o NamesOf(allFuncs) \o allNested)
       fileOf(t) == CHOOSE i \in DOMAIN fs : t \in Range(TypesOf(in.lang, fs[i]))
   IN  IF ~inq THEN {}
-      ELSE IF oc.panic THEN {Item("panic", "common", {})}
+      ELSE IF oc.panic THEN (IF oc.accepts THEN {Item("panic", "common", {})} ELSE {})
       ELSE EntriesDiff(allTypes, typeEntries, "common-type-missing", "common-type-duplicated", "common-type-undeclared", "common:",
                        LAMBDA t, e : IF in.lang = "go" THEN GoTypeDiff(fs[fileOf(t)], t, e, "common:")
                                      ELSE PyClassDiff(t, e, "common:", allNested)) \cup
